@@ -132,14 +132,16 @@ class Page(HTMLParser):
         return inv
 
 
-def read_output(outdir, encoding='utf-8'):
-    """-> {filename: text} for the html/xhtml files in the output directory"""
+def read_output(outdir, encoding='utf-8', also=()):
+    """-> {filename: text} for the html/xhtml files in the output directory, and for the files named in `also`
+    (names issued by the renderer need not end in .html: a label such as `f001.html` in `$id-$num` gives `f001.html-02`)"""
     out = {}
+    also = set(also)
     for root, dirs, files in os.walk(outdir):
         for f in files:
-            if f.endswith(('.html', '.xhtml', '.htm')):
-                p = os.path.join(root, f)
-                rel = os.path.relpath(p, outdir)
+            p = os.path.join(root, f)
+            rel = os.path.relpath(p, outdir)
+            if f.endswith(('.html', '.xhtml', '.htm')) or rel in also:
                 with open(p, 'rb') as fh:
                     out[rel] = fh.read().decode(encoding, 'replace')
     return out
